@@ -72,3 +72,6 @@ Proof.
   rewrite (fold_left_ext_in _ _ _ (fun g i => F g (nth i vs 0))) by (intros a i _; now rewrite Nat2Z.id).
   rewrite <- (map_nth_seq_ vs) at 2. now rewrite fold_left_map'.
 Qed.
+
+Lemma filter_true_pairs : forall (l : list (Z * Z)), filter (fun _ => true) l = l.
+Proof. induction l as [|x l IH]; cbn [filter]; [reflexivity|now rewrite IH]. Qed.
